@@ -22,6 +22,8 @@ ELEMENT = {"nodes": ("node", "n_node"), "face centers": ("face", "n_face"), "edg
 
 def check(run):
     P = run.program
+    from ..rules import consts as _consts
+    _consts.check(run, P)
     run.explanation = (
         "Structural reading of remap/utils.py and the two remap implementations. F-KIND: every comparison of a data length with a grid element count is located; it is accepted only inside the "
         "`source_data_mapping is None` fallback of _remap_grid_parse, and both UxDataArray wrappers must pass source_data_mapping derived from the array's dims. F-TABLE: the literal tables are extracted from the if-chains and compared with the element table. "
